@@ -132,7 +132,7 @@ fn main() {
                     None => ("harness-panic".into(), vec!["uncaught panic in harness".into()]),
                 };
                 // `big=1`: implementation-side oracles only (the model driver prints `BIG` too)
-                let obs = if line.contains(" big=1") { "BIG".to_string() } else { obs };
+                let obs = if line.split(' ').any(|t| t == "big=1") { "BIG".to_string() } else { obs };
                 writeln!(out, "{}\t{}", obs, fails.join("; ")).unwrap();
                 // one flush per case: if a case kills the process (stack overflow, allocation
                 // abort) the number of complete lines tells the check which case it was
@@ -163,7 +163,7 @@ fn main() {
                         let Some((k, v)) = f.split_once('=') else { continue };
                         let pieces: Vec<String> = match k {
                             "o" | "s" if v != "-" => v.split(',').map(|x| x.to_string()).collect(),
-                            "d" | "pre" if v != "-" => (0..v.len() / 2).map(|i| v[2 * i..2 * i + 2].to_string()).collect(),
+                            "d" | "pre" if v != "-" && v.bytes().all(|c| c.is_ascii_hexdigit()) => (0..v.len() / 2).map(|i| v[2 * i..2 * i + 2].to_string()).collect(),
                             _ => continue,
                         };
                         let sep = if k == "o" || k == "s" { "," } else { "" };
